@@ -138,7 +138,7 @@ def _entry_at(fa, value, at, fields):
     return {f: A.norm(v) for f, v in ef.items()}
 
 
-def _on_trail(fa, atom, at, trail):
+def _on_trail(fa, atom, at, trail, keep=()):
     """`atom` (tested at node `at`) with every local replaced by the value the path gave it last before the
     test — the path-sensitive counterpart of FA.expand for locals that have several definitions."""
     import copy
@@ -156,11 +156,36 @@ def _on_trail(fa, atom, at, trail):
 
     class T(ast.NodeTransformer):
         def visit_Name(self, n):
-            if isinstance(n.ctx, ast.Load) and n.id in last and last[n.id][0] is not None:
+            if isinstance(n.ctx, ast.Load) and n.id in last and last[n.id][0] is not None and n.id not in keep:
                 return fa.expand(last[n.id][0], last[n.id][1])
             return n
 
-    return T().visit(copy.deepcopy(atom))
+    out = copy.deepcopy(atom)
+    for _round in range(4):
+        # a value put in may itself mention a local the path assigned (the name of an attribute chosen first)
+        before = ast.dump(out)
+        out = _fold(T().visit(out))
+        if ast.dump(out) == before:
+            break
+    return out
+
+
+def _fold(e):
+    """`('a', 'b')[0]` -> 'a', `{'x': 'a'}['x']` -> 'a': a name looked up in a literal table is the name."""
+    class F(ast.NodeTransformer):
+        def visit_Subscript(self, n):
+            self.generic_visit(n)
+            k = n.slice
+            if isinstance(n.value, (ast.Tuple, ast.List)) and isinstance(k, ast.Constant) and isinstance(k.value, int) \
+                    and -len(n.value.elts) <= k.value < len(n.value.elts) and not any(isinstance(x, ast.Starred) for x in n.value.elts):
+                return n.value.elts[k.value]
+            if isinstance(n.value, ast.Dict) and isinstance(k, ast.Constant) and all(isinstance(x, ast.Constant) for x in n.value.keys):
+                for kk, vv in zip(n.value.keys, n.value.values):
+                    if kk.value == k.value:
+                        return vv
+            return n
+
+    return F().visit(e)
 
 
 def _facts(fa, lits, subject, trail=()):
@@ -175,7 +200,7 @@ def _facts(fa, lits, subject, trail=()):
             try:
                 d = PM.duck_atom(PM._strip_casts(fa.expand(l.atom, l.at)), subject)
                 if d is None and trail:
-                    d = PM.duck_atom(PM._strip_casts(_on_trail(fa, l.atom, l.at, trail)), subject)
+                    d = PM.duck_atom(PM._strip_casts(_on_trail(fa, l.atom, l.at, trail, (subject,))), subject)
             except Exception:  # noqa
                 d = None
         if d and d[0] == "isinstance" and "PicklePartition" in d[1]:
@@ -198,6 +223,8 @@ def _parent_reads(fa, MP, use=None):
         elif isinstance(x, ast.Call) and isinstance(x.func, ast.Name) and x.func.id == "getattr" and len(x.args) in (2, 3) and isinstance(x.args[0], ast.Name) \
                 and A.const_str(x.args[1]):
             subj, attr = x.args[0], A.const_str(x.args[1])
+        elif isinstance(x, ast.Call) and isinstance(x.func, ast.Name) and x.func.id == "getattr" and len(x.args) in (2, 3) and isinstance(x.args[0], ast.Name):
+            subj, attr = x.args[0], x.args[1]  # the name is chosen first (a table by kind of parent): known per path
         if attr is None:
             continue
         ids = fa.nodes(x)
@@ -209,6 +236,20 @@ def _parent_reads(fa, MP, use=None):
             continue
         paths = PM.walk(fa, ids)
         if not paths:
+            continue
+        if not isinstance(attr, str):
+            from ..loader import AnalysisError
+            for (_t, lits, _tr) in paths:
+                nm = A.const_str(_on_trail(fa, attr, ids[0], _tr))
+                if nm is None:
+                    raise AnalysisError("%s: the attribute `%s` reads off the merge parent cannot be told on every path" % (fa.qual, A.short(x, 50)))
+                (i, h) = _facts(fa, lits, MP, _tr)
+                if i is True:
+                    stored.add(nm)
+                else:
+                    duck.add(nm)
+                    if use is None:
+                        tested = h if tested is None else (tested & h)
             continue
         facts = [_facts(fa, lits, MP, _tr) for (_t, lits, _tr) in paths]
         if all(i is True for (i, _h) in facts):
@@ -347,7 +388,12 @@ def check_protocol(ck, R):
           "when the object being stored is itself the stored form (a function returning a partition it got from another memento function), only "
           "its non-inherited keys are listed and nothing copies the inherited entries of its own index: they are missing from the new entry", fa.where())
     # otherwise: I/O error (absorbed by the runner, see C08.R3)
-    els = [r for r in fa.stmts(ast.Raise) if isinstance(r.exc, ast.Call) and A.call_attr(r.exc) in ("IOError", "OSError")]
+    def raised(r):
+        e = r.exc
+        if isinstance(e, ast.Name) and fa.nodes(r):
+            e = fa.expand(e, fa.nodes(r)[0])
+        return e
+    els = [r for r in fa.stmts(ast.Raise) if isinstance(raised(r), ast.Call) and A.call_attr(raised(r)) in ("IOError", "OSError")]
     ck.ob(R, fa.key(None, "unusable-parent-signalled"), bool(els), "an unusable parent is signalled as an I/O error" if els else
           "an unusable merge parent is not signalled as an I/O error", fa.where())
 
@@ -441,8 +487,9 @@ def check_overlay(ck, R):
                             dd = (v, i)
             if di is not None and di[0] is not None and A.norm(di[0]) in ("{}", "dict()"):
                 continue  # an empty default: the body is not entered on this path
-            xi = fa.xnorm(di[0], di[1]) if di and di[0] is not None else ""
-            xd = fa.xnorm(dd[0], dd[1]) if dd and dd[0] is not None else ""
+            upto = lambda i: tr[:tr.index(i)] if i in tr else tr
+            xi = A.norm(PM._strip_casts(_on_trail(fa, fa.expand(di[0], di[1]), di[1], upto(di[1]), (MP,)))) if di and di[0] is not None else ""
+            xd = A.norm(PM._strip_casts(_on_trail(fa, fa.expand(dd[0], dd[1]), dd[1], upto(dd[1]), (MP,)))) if dd and dd[0] is not None else ""
             ga = re.compile(r"getattr\(%s, '(\w+)'(, None)?\)" % re.escape(MP))
             xi, xd = ga.sub(MP + r".\1", xi), ga.sub(MP + r".\1", xd)
             mi, md = re.fullmatch(re.escape(MP) + r"\.(\w+)", xi), re.fullmatch(re.escape(MP) + r"\.(\w+)", xd)
@@ -501,6 +548,18 @@ def _one(tok):
     return (frozenset([tok]), False)
 
 
+_DUP = ("dup",)  # the collection may hold the same key twice (two listings put end to end, never made a set)
+
+
+def _uniq(srcs):
+    return frozenset(t for t in srcs if t != _DUP)
+
+
+def _joined(a, b):
+    """Sources of two collections put end to end (list + list, extend): a key in both is there twice."""
+    return (a | b | frozenset([_DUP])) if (_uniq(a) and _uniq(b)) else (a | b)
+
+
 def _kv(e, env):
     """Abstract value of a key-collection expression: (frozenset of sources, sorted?).  Sources:
     ('own', field, filter-or-None) the keys of self.<field>; ('parent',) the merge parent's full listing;
@@ -533,27 +592,29 @@ def _kv(e, env):
                     return (s, not e.keywords)
                 if e.func.id in ("list", "tuple", "iter") and not e.keywords:
                     return (s, so)
-                return (s, False)
+                return (_uniq(s), False)  # set / frozenset
         if recv is not None and name == "union" and not e.keywords:
             s = _kv(recv, env)[0]
             for a in e.args:
                 s = s | _kv(a, env)[0]
-            return (s, False)
+            return (_uniq(s), False)
         if recv is not None and name == "copy" and not e.args and not e.keywords:
             return (_kv(recv, env)[0], False)
         if name == "chain" and not e.keywords and not any(isinstance(a, ast.Starred) for a in e.args):
             s = frozenset()
             for a in e.args:
-                s = s | _kv(a, env)[0]
+                s = _joined(s, _kv(a, env)[0])
             return (s, False)
         return _one(("?", A.norm(e)))
-    if isinstance(e, ast.BinOp) and isinstance(e.op, (ast.BitOr, ast.Add)):
-        return (_kv(e.left, env)[0] | _kv(e.right, env)[0], False)
+    if isinstance(e, ast.BinOp) and isinstance(e.op, ast.BitOr):
+        return (_uniq(_kv(e.left, env)[0] | _kv(e.right, env)[0]), False)
+    if isinstance(e, ast.BinOp) and isinstance(e.op, ast.Add):
+        return (_joined(_kv(e.left, env)[0], _kv(e.right, env)[0]), False)
     if isinstance(e, (ast.Set, ast.List, ast.Tuple)):
         s = frozenset()
         for x in e.elts:
-            s = s | (_kv(x.value, env)[0] if isinstance(x, ast.Starred) else frozenset([("?", A.norm(x))]))
-        return (s, False)
+            s = _joined(s, _kv(x.value, env)[0] if isinstance(x, ast.Starred) else frozenset([("?", A.norm(x))]))
+        return (_uniq(s) if isinstance(e, ast.Set) else s, False)
     if isinstance(e, (ast.ListComp, ast.SetComp, ast.GeneratorExp)) and len(e.generators) == 1 and not e.generators[0].is_async:
         g = e.generators[0]
         keyvar = valvar = None
@@ -566,7 +627,11 @@ def _kv(e, env):
             keyvar = g.target.id
         else:
             return _one(("?", A.norm(e)))
+        if isinstance(e, ast.SetComp):
+            src = _uniq(src)
         toks = list(src)
+        if isinstance(e.elt, ast.Name) and e.elt.id == keyvar and not g.ifs and toks and not any(t[0] == "?" for t in toks):
+            return (src, False)
         if isinstance(e.elt, ast.Name) and e.elt.id == keyvar and len(toks) == 1:
             if not g.ifs:
                 return (src, False)
@@ -607,8 +672,9 @@ def _step(env, nd, value):
         accs = _accumulating_loop(st, env)
         if accs:
             (src, _so) = _kv(st.iter, env)
+            adds = {c_.value.func.value.id: c_.value.func.attr for c_ in st.body}
             for nm in accs:
-                env[nm] = (env[nm][0] | src, False)
+                env[nm] = ((env[nm][0] | src) if adds.get(nm) == "add" else _joined(env[nm][0], src), False)
             env[st.target.id] = _one(_ELEM)
         return
     if nd.kind == "test" and st is not None:
@@ -636,8 +702,10 @@ def _step(env, nd, value):
         env.update(new)
     elif isinstance(st, ast.AugAssign) and isinstance(st.target, ast.Name):
         cur = env.get(st.target.id, _one(("?", st.target.id)))[0]
-        if isinstance(st.op, (ast.BitOr, ast.Add)):
-            env[st.target.id] = (cur | _kv(value, env)[0], False)
+        if isinstance(st.op, ast.BitOr):
+            env[st.target.id] = (_uniq(cur | _kv(value, env)[0]), False)
+        elif isinstance(st.op, ast.Add):
+            env[st.target.id] = (_joined(cur, _kv(value, env)[0]), False)
         else:
             env[st.target.id] = (cur | frozenset([("?", A.norm(st))]), False)
     elif isinstance(st, ast.Expr) and isinstance(value, ast.Call) and isinstance(value.func, ast.Attribute) \
@@ -646,7 +714,7 @@ def _step(env, nd, value):
         cur, so = env[nm]
         if meth in ("update", "extend") and not c.keywords:
             for a in c.args:
-                cur = cur | _kv(a, env)[0]
+                cur = (cur | _kv(a, env)[0]) if meth == "update" else _joined(cur, _kv(a, env)[0])
             env[nm] = (cur, False)
         elif meth == "sort" and not c.args and not c.keywords:
             env[nm] = (cur, True)
@@ -735,7 +803,8 @@ def _show(srcs):
     out = []
     for t in sorted(srcs, key=repr):
         out.append({"own": lambda: "self.%s keys%s" % (t[1], "" if t[2] is None else " " + repr(t[2])), "parent": lambda: "parent.list_keys()",
-                    "parent-partial": lambda: "a restricted parent listing", "parentobj": lambda: "the parent object"}.get(t[0], lambda: "`%s`" % t[-1])())
+                    "parent-partial": lambda: "a restricted parent listing", "parentobj": lambda: "the parent object",
+                    "dup": lambda: "two listings put end to end (a key in both is listed twice)"}.get(t[0], lambda: "`%s`" % t[-1])())
     return out
 
 
